@@ -100,9 +100,66 @@ fn main() {
         }
         if it < 3 + nfix && it >= nfix { emit_sample(&format!("fixture={} mutators={} e2e={:?}", fname, trail, o.e2e)); }
     }
+    inventory();
     emit_stat("cases_run", n_run);
     emit_stat("undecodable_mutants_dropped", n_undecodable);
     emit_stat("accepted", n_accept);
     emit_stat("e2e_panics", n_panic);
 }
 
+
+// ---------------------------------------------------------------- inventory of panic-capable sites
+/// Functions of the anchored files whose bodies are transcribed in PV.C33.Model / ModelPA. Everything
+/// else (certificates and their helpers, native-script evaluation, Byron address-root recomputation,
+/// hashing / CBOR-size helpers, script-integrity hash construction) enters the model as data.
+const NOT_MODELLED: &[&str] = &[
+    "check_certificates", "check_stake_registration", "check_stake_deregistration", "check_stake_delegation", "insert_or_err",
+    "check_pool_reg_or_update", "check_pool_retirement", "check_genesis_key_delegation", "check_mir", "to_epoch", "first_slot",
+    "check_native_scripts", "eval_native_script", "redeems", "mk_spending_data", "get_data_to_verify", "mk_byron_address", "get_tx_size",
+    "compute_script_integrity_hash", "cost_model_cbor", "cost_model_for_tx", "compute_script_hash", "compute_native_script_hash",
+    "compute_plutus_script_hash", "compute_plutus_v1_script_hash", "compute_plutus_v2_script_hash", "compute_plutus_v3_script_hash",
+    "get_alonzo_comp_tx_size", "get_babbage_tx_size", "get_conway_tx_size", "get_val_size_in_words", "conway_get_val_size_in_words",
+    "get_payment_part", "get_shelley_address", "is_byron_address", "aux_data_from_alonzo_tx", "aux_data_from_babbage_tx", "aux_data_from_conway_tx",
+    "get_script_hash_from_reference_input", "sort_reward_accounts", "system_start", "protocol_version", "epoch_length", "slot_length", "validate_txs",
+];
+fn inventory() {
+    // the harness Cargo.toml names the pallas-validate checkout under test
+    let manifest = std::fs::read_to_string(concat!(env!("CARGO_MANIFEST_DIR"), "/Cargo.toml")).unwrap_or_default();
+    let Some(line) = manifest.lines().find(|l| l.starts_with("pallas-validate")) else { return };
+    let Some(a) = line.find("path = \"") else { return };
+    let rest = &line[a + 8..];
+    let root = &rest[..rest.find('"').unwrap_or(rest.len())];
+    let files = ["src/phase1/mod.rs", "src/phase1/byron.rs", "src/phase1/shelley_ma.rs", "src/phase1/alonzo.rs", "src/phase1/babbage.rs", "src/phase1/conway.rs", "src/utils.rs", "src/utils/environment.rs"];
+    let kinds: [(&str, fn(&str) -> u64); 6] = [
+        ("unwrap_expect", |l| (l.matches(".unwrap()").count() + l.matches(".expect(").count()) as u64),
+        ("panic_macro", |l| (l.matches("unreachable!").count() + l.matches("unimplemented!").count() + l.matches("todo!").count() + l.matches("panic!").count()) as u64),
+        ("index_or_slice", |l| { let mut n = 0; let b = l.as_bytes(); for i in 1..b.len() { if b[i] == b'[' && (b[i - 1].is_ascii_alphanumeric() || b[i - 1] == b')' || b[i - 1] == b']' || b[i - 1] == b'_') { n += 1 } } n }),
+        ("copy_from_slice", |l| l.matches("copy_from_slice").count() as u64),
+        ("as_cast", |l| [" as u8", " as u16", " as u32", " as u64", " as u128", " as i64", " as usize"].iter().map(|p| l.matches(p).count()).sum::<usize>() as u64),
+        ("unchecked_arith", |l| { if l.trim_start().starts_with("//") { return 0 } [" + ", " - ", " * ", " += ", " -= "].iter().map(|p| l.matches(p).count()).sum::<usize>() as u64 }),
+    ];
+    let (mut tot, mut modelled) = (0u64, 0u64);
+    for f in files {
+        let Ok(src) = std::fs::read_to_string(format!("{}/{}", root, f)) else { continue };
+        let mut cur = String::new();
+        let mut per: std::collections::BTreeMap<&str, (u64, u64)> = Default::default();
+        for l in src.lines() {
+            if l.starts_with("#[cfg(pallas_verif)]") || l.starts_with("#[cfg(test)]") { break }
+            let t = l.trim_start();
+            if (l.starts_with("fn ") || l.starts_with("pub fn ") || l.starts_with("    pub fn ") || l.starts_with("    fn ")) && t.contains('(') {
+                let s = t.trim_start_matches("pub ").trim_start_matches("fn ");
+                cur = s.chars().take_while(|c| c.is_alphanumeric() || *c == '_').collect();
+            }
+            if t.starts_with("//") || t.starts_with("hex::decode") || t.starts_with('"') { continue }
+            for (k, cnt) in kinds.iter() {
+                let n = cnt(l); if n == 0 { continue }
+                let e = per.entry(k).or_insert((0, 0));
+                e.0 += n; if !NOT_MODELLED.contains(&cur.as_str()) && !cur.is_empty() { e.1 += n }
+            }
+        }
+        let fname = f.rsplit('/').next().unwrap().trim_end_matches(".rs");
+        for (k, (a, m)) in per { emit_stat(&format!("inventory_{}_{}_sites", fname, k), a); emit_stat(&format!("inventory_{}_{}_in_modelled_fns", fname, k), m); tot += a; modelled += m }
+    }
+    emit_stat("inventory_total_sites", tot);
+    emit_stat("inventory_sites_in_modelled_functions", modelled);
+}
